@@ -59,7 +59,7 @@ Definition check_vcase (c : vcase) : bool :=
                              && list_eqb gclass_eqb classes []
       | RespMessage hv os =>
           opt_eqb Z.eqb raised None && opt_eqb ver_eqb hdr (Some hv)
-          && list_eqb gclass_eqb classes (map (fun p => class_of (gate v (fst p))) (firstn (length os) items))
+          && list_eqb gclass_eqb classes (map (fun p => class_of (gate v (fst p))) (firstn (List.length os) items))
       end
   | CSession v known hr stop items hdr err classes =>
       let req := Build_request v hr stop (k_items items) in
@@ -68,7 +68,7 @@ Definition check_vcase (c : vcase) : bool :=
       | WireError hv reason => ver_eqb hdr hv && opt_eqb Z.eqb err (Some reason) && list_eqb gclass_eqb classes []
       | WireMessage hv os =>
           ver_eqb hdr hv && opt_eqb Z.eqb err None
-          && list_eqb gclass_eqb classes (map (fun p => class_of (gate v (fst p))) (firstn (length os) items))
+          && list_eqb gclass_eqb classes (map (fun p => class_of (gate v (fst p))) (firstn (List.length os) items))
       end
   | CQuery v ops => list_eqb Z.eqb (query_ops v) ops
   | CDiscover client answer => list_eqb ver_eqb (discover client) answer
